@@ -153,6 +153,22 @@ def run(ck):
                   "std::thread::join is reachable from %s: shutdown() blocks until every running handler has returned, and called from a "
                   "handler it joins the calling thread itself" % base_.replace("Pistache::", ""))
     ck.require(nsd >= 3, "shutdown entry points found: %d" % nsd)
+    # the stop flag only ever goes up: it is set in shutdown() and cleared nowhere after construction -- a worker that cleared it when it
+    # starts running would forget a shutdown() that arrived before it got that far
+    SD = "Pistache::Aio::SyncImpl::shutdown_"
+    for f_ in prog.library_funcs():
+        for e_ in f_.events(("call", "assign")):
+            tgt = strip_tmpl(((e_.get("recv") if e_["k"] == "call" else e_.get("lhs")) or {}).get("f") or "")
+            if tgt != SD:
+                continue
+            if e_["k"] == "call" and e_.base_callee().rsplit("::", 1)[-1] not in ("store", "operator=", "exchange", "compare_exchange_strong", "compare_exchange_weak"):
+                continue
+            val = (e_.get("args") or [{}])[0].get("const") if e_["k"] == "call" else e_.get("const")
+            in_sd = f_.base == "Pistache::Aio::SyncImpl::shutdown"
+            ck.ob("C09-R2", "SyncImpl::shutdown_/set-only-by-shutdown@%s" % f_.base.replace("Pistache::Aio::", ""), in_sd and val is True, e_.loc, f_,
+                  "shutdown_ = true in shutdown()" if in_sd and val is True else
+                  "`%s` in %s: the stop flag is written outside shutdown() (or with something else than true): a shutdown() that has already "
+                  "been requested can be forgotten" % ((e_.get("t") or "")[:50], f_.base.replace("Pistache::Aio::", "")))
 
     # Listener::shutdown() only notifies a *bound* shutdownFd, so the notifier must be bound before the acceptor thread exists:
     # otherwise a shutdown() issued right after serveThreaded() is lost and the acceptor keeps polling
@@ -323,3 +339,7 @@ def run(ck):
               "consumer must keep popping until the queue is empty -- a consumer that stops earlier leaves entries behind with their wake-up "
               "already consumed",
               key_pred=lambda k: "Tcp::Transport" in k or k in ("Queue::push", "PollableQueue::push", "PollableQueue::pop"), min_instances=6)
+    ck.borrow("C14", ["C14-R5"], "C09-R8",
+              "the server's transport hands every ready set on to Tcp::Transport::onReady, also when its own periodic timer is in it: peer "
+              "sockets are edge-triggered, an event that is not handled is not reported again and the request is never answered",
+              key_pred=lambda k: k == "onReady/periodic-scan", min_instances=1)
